@@ -191,6 +191,8 @@ class Outcome:
 
 
 class Interp:
+    VISITED = set()   # keys of all bodies interpreted by any analysis of this process (coverage census of C15)
+
     def __init__(self, facts, primitives=None, models=None, max_steps=200000, max_paths=200000, max_depth=40):
         self.f = facts
         self.types = facts.types
@@ -686,6 +688,7 @@ class Interp:
         for i, a in enumerate(args):
             st.mem[("f", fid, i + 1)] = a
         st.frames.append(fr)
+        Interp.VISITED.add(body["key"])
         return fr
 
     def pop_frame(self, st):
@@ -1138,7 +1141,9 @@ class Interp:
         st.tag("unknown-callee")
         rt = self.types[t["dest"]["ty"]]
         if rt["k"] == "never":
-            self.emit(Outcome("diverge", st, None, {"fn": fr.body["key"], "callee": key, "line": t["ln"]}))
+            # a call that never returns (panic!, unreachable!, process::exit ...)
+            self.emit(Outcome("panic", st, None, {"kind": "diverging-call", "op": key.split("::")[-1], "fn": fr.body["key"], "callee": key, "line": t["ln"],
+                                                   "stack": [f.body["key"] for f in st.frames]}))
             return []
         if rt["k"] == "adt" and rt.get("adt") == "enum" and "variants" in rt and len(rt["variants"]) > 1:
             outs = [(None, Enum(i, [Opaque("unk:" + key) for _ in vv["fields"]])) for i, vv in enumerate(rt["variants"])]
